@@ -191,6 +191,13 @@ def check_expr(case, v):
             return v.fail("roundtrip", f"{text!r} rendered as {e!r} which does not parse: {ex!r}")
         if back != got_atoms:
             return v.fail("roundtrip", f"{text!r} -> {e!r} -> {back} != {got_atoms}")
+        # "gives the same units" also by the library's own notion of equality and in its dictionary form
+        again = BaseUnits(e)
+        if not (again == bu) or not (bu == again):
+            return v.fail("roundtrip-eq", f"BaseUnits({e!r}) != BaseUnits({text!r}) although {e!r} is its rendering "
+                                          f"({again.value()} vs {bu.value()})")
+        if again.value() != bu.value():
+            return v.fail("roundtrip-eq", f"BaseUnits({e!r}).value() = {again.value()} but BaseUnits({text!r}).value() = {bu.value()}")
         try:
             mine = {k: x for k, x in R.parse_simple_expression(e).items() if x != 0}
         except ValueError as ex:
